@@ -315,7 +315,7 @@ def shrink(ctx, prefix: str, events: List[List[Any]], pb: Dict[str, Any], extra:
 
 def compare_flock(ctx, drivers: List[Driver], clients: List[int], name: str) -> None:
     exprs = [flock_expr(d.events, clients) for d in drivers]
-    got = coqbuild.coq_eval(REQ, exprs)
+    got = coqbuild.coq_eval(REQ, exprs, chunk=120)
     bad = []
     for d, g in zip(drivers, got):
         trace, summ, now = g
@@ -334,7 +334,7 @@ def compare_flock(ctx, drivers: List[Driver], clients: List[int], name: str) -> 
 
 def compare_s3(ctx, drivers: List[Driver], clients: List[int], lease_s: int, name: str) -> None:
     exprs = [s3_expr(d.events, clients, lease_s * 1000) for d in drivers]
-    got = coqbuild.coq_eval(REQ, exprs)
+    got = coqbuild.coq_eval(REQ, exprs, chunk=120)
     bad = []
     for d, g in zip(drivers, got):
         trace, summ, (owner, now, late) = g
@@ -462,20 +462,27 @@ def s3_cases(ctx) -> Dict[int, List[Driver]]:
     lease = 2
     scripts = {0: [["call", 0, "acquire", 1000], ["call", 0, "is_held"], ["call", 0, "release"]],
                1: [["call", 1, "acquire", 1000], ["call", 1, "is_held"], ["call", 1, "release"]]}
-    by_lease[2] += explore(lambda: s3_driver(ctx, scripts, lease), 3, 1200 if quick else 30000)
+    by_lease[2] += explore(lambda: s3_driver(ctx, scripts, lease), 3, 800 if quick else 30000)
     n1 = len(by_lease[2])
     scripts_e = dict(scripts)
     scripts_e["E"] = [["tick", lease * 1000 + 1]]
-    by_lease[2] += explore(lambda: s3_driver(ctx, scripts_e, lease), 2, 1200 if quick else 30000, free_actors=("E",))
+    by_lease[2] += explore(lambda: s3_driver(ctx, scripts_e, lease), 2, 800 if quick else 30000, free_actors=("E",))
     n2 = len(by_lease[2])
     scripts_r = {0: [["call", 0, "acquire", 1000], ["call", 0, "is_held"], ["call", 0, "release"]],
                  1: [["call", 1, "acquire", 3000], ["call", 1, "is_held"]],
                  "E": [["tick", lease * 1000 + 1], ["renew", 0, "none"], ["renew", 1, "none"]]}
-    by_lease[2] += explore(lambda: s3_driver(ctx, scripts_r, lease), 1, 1200 if quick else 30000, free_actors=("E",))
+    by_lease[2] += explore(lambda: s3_driver(ctx, scripts_r, lease), 1, 800 if quick else 30000, free_actors=("E",))
     n3 = len(by_lease[2])
+    # (1b) three clients, one releasing: every placement of the lease lapse (this is where the search meets F-C19
+    #      on its own: release's GET, pause past the lease, takeover, delayed DELETE, create)
+    scripts_3 = {0: [["call", 0, "acquire", 1000], ["call", 0, "release"]],
+                 1: [["call", 1, "acquire", 1000]], 2: [["call", 2, "acquire", 1000]],
+                 "E": [["tick", lease * 1000 + 1]]}
+    by_lease[2] += explore(lambda: s3_driver(ctx, scripts_3, lease), 2, 1200 if quick else 30000, free_actors=("E",))
+    n4 = len(by_lease[2])
     # (2) random: 3 clients, faults, renewals, deaths, clock jumps
     clients = [0, 1, 2]
-    for _ in range(250 if quick else 5000):
+    for _ in range(200 if quick else 5000):
         lease_s = rng.choice([2, 60])
         L = lease_s * 1000
         scripts3: Dict[Any, List[List[Any]]] = {c: [] for c in clients}
@@ -499,8 +506,8 @@ def s3_cases(ctx) -> Dict[int, List[Driver]]:
         random_schedule(ctx, d, env, 250, 0.3)
         by_lease[lease_s].append(d)
     ctx.stats["s3_schedules"] = {"directed_fc19": 1, "two_contenders_le3_preemptions": n1, "lease_lapse_everywhere": n2 - n1,
-                                 "renew_and_lapse_everywhere": n3 - n2,
-                                 "random_three_with_faults": sum(len(v) for v in by_lease.values()) - n3 - 1,
+                                 "renew_and_lapse_everywhere": n3 - n2, "three_clients_release_race": n4 - n3,
+                                 "random_three_with_faults": sum(len(v) for v in by_lease.values()) - n4 - 1,
                                  "impl_wall_s": round(time.time() - t0, 1)}
     return by_lease
 
@@ -540,3 +547,216 @@ def check_s3(ctx) -> None:
             compare_s3(ctx, drivers, [0, 1, 2], lease_s, "s3")
     except RuntimeError as e:
         ctx.proof_problems.append("Lock model evaluation failed: " + str(e)[:600])
+
+
+# ---------------------------------------------------------------------------------- real processes / threads
+WORKER = r'''
+import os, sys, time
+from datashard.file_lock import FileLock
+mode, lock_path, counter, n = sys.argv[1], sys.argv[2], sys.argv[3], int(sys.argv[4])
+if mode == "count":
+    lk = FileLock(lock_path, timeout=120.0)
+    for _ in range(n):
+        lk.acquire()
+        try:
+            with open(counter) as f:
+                v = int(f.read() or "0")
+            with open(counter, "w") as f:
+                f.write(str(v + 1))
+        finally:
+            lk.release()
+elif mode == "hold":
+    lk = FileLock(lock_path, timeout=30.0)
+    lk.acquire()
+    with open(counter, "w") as f:
+        f.write("held")
+    time.sleep(3600)
+elif mode == "timeout":
+    lk = FileLock(lock_path, timeout=n / 1000.0)
+    t0 = time.monotonic()
+    try:
+        got = lk.acquire()
+        print("ACQUIRED", time.monotonic() - t0)
+    except TimeoutError:
+        print("TIMEOUT", time.monotonic() - t0)
+'''
+
+
+def _spawn(args: List[str]):
+    import subprocess
+    import sys
+    return subprocess.Popen([sys.executable, "-c", WORKER] + args, stdout=subprocess.PIPE, stderr=subprocess.PIPE, text=True)
+
+
+def _wait_file(path: str, secs: float) -> bool:
+    t0 = time.time()
+    while time.time() - t0 < secs:
+        if os.path.exists(path) and os.path.getsize(path) > 0:
+            return True
+        time.sleep(0.005)
+    return False
+
+
+def stress_real(ctx) -> None:
+    """The property's 'real multi-process stress': unprotected counter under the lock, kill -9 of holders,
+    wall-clock timeout.  Real kernel, real processes, real time -- exercises hypothesis flock_excl."""
+    import signal
+    import tempfile
+    import threading
+    quick = ctx.tier == "quick"
+    d = tempfile.mkdtemp(prefix="stress-", dir=ctx.scratch)
+    lock_path = os.path.join(d, "locks", "metadata.lock")
+    st: Dict[str, Any] = {}
+    # (a) processes x cycles on an unprotected counter
+    nproc, ncyc = (4, 150) if quick else (8, 2000)
+    counter = os.path.join(d, "counter")
+    with open(counter, "w") as f:
+        f.write("0")
+    t0 = time.time()
+    procs = [_spawn(["count", lock_path, counter, str(ncyc)]) for _ in range(nproc)]
+    errs = []
+    for p in procs:
+        out, err = p.communicate(timeout=900)
+        if p.returncode != 0:
+            errs.append(err[-300:])
+    got = int(open(counter).read() or "0")
+    st["counter"] = {"processes": nproc, "cycles_each": ncyc, "expected": nproc * ncyc, "got": got, "wall_s": round(time.time() - t0, 2)}
+    ctx.count(nproc * ncyc)
+    if errs or got != nproc * ncyc:
+        ctx.violation("flock-stress-lost-update", f"{nproc} processes x {ncyc} locked increments: counter={got}, expected {nproc * ncyc}; errors={errs[:2]}",
+                      {"lock": "stress", "processes": nproc, "cycles": ncyc, "got": got, "errors": errs[:3]})
+    # (b) threads of one process, one FileLock instance each
+    from datashard.file_lock import FileLock
+    nthr, tcyc = (4, 100) if quick else (8, 500)
+    tcounter = os.path.join(d, "tcounter")
+    with open(tcounter, "w") as f:
+        f.write("0")
+    terrs: List[str] = []
+
+    def tw() -> None:
+        lk = FileLock(lock_path, timeout=120.0)
+        try:
+            for _ in range(tcyc):
+                lk.acquire()
+                try:
+                    with open(tcounter) as f:
+                        v = int(f.read() or "0")
+                    with open(tcounter, "w") as f:
+                        f.write(str(v + 1))
+                finally:
+                    lk.release()
+        except Exception as e:
+            terrs.append(repr(e))
+    ths = [threading.Thread(target=tw) for _ in range(nthr)]
+    [t.start() for t in ths]
+    [t.join() for t in ths]
+    tgot = int(open(tcounter).read() or "0")
+    st["threads"] = {"threads": nthr, "cycles_each": tcyc, "expected": nthr * tcyc, "got": tgot}
+    ctx.count(nthr * tcyc)
+    if terrs or tgot != nthr * tcyc:
+        ctx.violation("flock-stress-threads-lost-update", f"{nthr} threads x {tcyc}: counter={tgot}; errors={terrs[:2]}",
+                      {"lock": "stress", "threads": nthr, "cycles": tcyc, "got": tgot, "errors": terrs[:3]})
+    # (c) kill -9 of holders: the lock must be obtainable immediately afterwards
+    kills = 3 if quick else 25
+    worst = 0.0
+    for i in range(kills):
+        flag = os.path.join(d, f"held{i}")
+        p = _spawn(["hold", lock_path, flag, "0"])
+        if not _wait_file(flag, 20):
+            p.kill()
+            ctx.violation("flock-stress-holder-never-acquired", "holder process did not acquire within 20 s", {"lock": "stress"})
+            continue
+        probe = FileLock(lock_path, timeout=0.0)
+        try:
+            if probe.acquire(blocking=False):
+                probe.release()
+                ctx.violation("flock-stress-second-acquire-while-held", "non-blocking acquire succeeded while another process holds",
+                              {"lock": "stress", "round": i})
+        finally:
+            pass
+        os.kill(p.pid, signal.SIGKILL)
+        p.wait()
+        lk = FileLock(lock_path, timeout=2.0)
+        t1 = time.monotonic()
+        try:
+            lk.acquire()
+            worst = max(worst, time.monotonic() - t1)
+            lk.release()
+        except TimeoutError:
+            ctx.violation("flock-stress-lock-stuck-after-kill9", "lock still held 2 s after its holder was killed -9",
+                          {"lock": "stress", "round": i})
+    st["kill9"] = {"rounds": kills, "worst_reacquire_s": round(worst, 4)}
+    ctx.count(kills)
+    # (d) wall-clock timeout of a blocked acquirer
+    flag = os.path.join(d, "heldT")
+    holder = _spawn(["hold", lock_path, flag, "0"])
+    meas = []
+    try:
+        if _wait_file(flag, 20):
+            for tmo_ms in ([300] if quick else [100, 300, 1000]):
+                w = _spawn(["timeout", lock_path, "x", str(tmo_ms)])
+                out, err = w.communicate(timeout=60)
+                word, secs = (out.split() + ["?", "nan"])[:2]
+                secs = float(secs)
+                meas.append({"timeout_s": tmo_ms / 1000.0, "outcome": word, "elapsed_s": round(secs, 4)})
+                ctx.count(1)
+                if word != "TIMEOUT":
+                    ctx.violation("flock-stress-no-timeout", f"blocked acquirer reported {word} while another process holds: {err[-200:]}",
+                                  {"lock": "stress", "timeout_ms": tmo_ms, "stdout": out, "stderr": err[-300:]})
+                elif secs < tmo_ms / 1000.0 or secs > tmo_ms / 1000.0 + 0.01 + 0.5:
+                    # the theorem's bound is timeout + one poll interval; 0.5 s is allowance for OS scheduling noise
+                    ctx.violation("flock-stress-timeout-out-of-bounds", f"TimeoutError after {secs:.3f}s for timeout {tmo_ms / 1000.0}s",
+                                  {"lock": "stress", "timeout_ms": tmo_ms, "elapsed_s": secs})
+    finally:
+        holder.kill()
+        holder.wait()
+    st["timeout_wall_clock"] = meas
+    ctx.stats["real_stress"] = st
+
+
+# ---------------------------------------------------------------------------------- driver
+def run(ctx) -> None:
+    ctx.rule = ("schedules = event lists over {call, step, renew, tick, die, fault}; every schedule is executed on the real class "
+                "under the cooperative scheduler and on the Coq model; enumerated: all interleavings of 2 contenders with <= 3 "
+                "preemptions, environment events (death / clock jump past the lease / renewal / open failure) at every point, "
+                "random schedules of 3 clients with faults; a case is distinct by its full event list; oracles judge every "
+                "intermediate state")
+    ctx.trusted_base += [
+        "hypothesis flock_excl: the kernel grants LOCK_EX on an inode only if no other open file description holds it "
+        "(not proved; real flock runs under every local-lock schedule and in the multi-process stress)",
+        "S3 model assumptions: strongly consistent store, atomic conditional PUT, fresh ETag per write, zero clock skew between "
+        "clients and LastModified; faults are botocore ClientErrors",
+        "translator/gen_lockconst.py (constants; golden pins of the 11 hand-modelled functions)",
+        "harness: harness/lib/coop.py (scheduler), lockshims.py (patched primitives), fakes3_lock.py, lockruns.py, "
+        "harness/props/c19.py; the heartbeat thread is replaced by explicit renew events calling _renew_once under the "
+        "same guard as _heartbeat_loop",
+    ]
+    ctx.assumptions += [
+        "scope: flock mode (fcntl available) and S3LockProvider (conditional writes); O_EXCL fallback and S3PollingLockProvider out of scope",
+        "all S3 lock clients of one table use the same lease_seconds",
+        "one FileLock / provider instance is used by one thread at a time (is_held() is judged between calls)",
+        "C19_s3_mutex_partial: no release()'s DELETE lands after the releaser's own lease lapsed (otherwise: known finding)",
+    ]
+    ctx.proofs(THEOREMS, gen_files=["GenLockConst.v"])
+    ctx.allow_axioms([])
+    check_flock(ctx)
+    check_s3(ctx)
+    stress_real(ctx)
+
+
+def replay(ctx, payload) -> int:
+    case = payload.get("case") or {}
+    kind = case.get("lock")
+    if kind in ("flock", "s3"):
+        r = rerun(kind, case["events"], ctx.scratch, case)
+        want = (case.get("problem") or {}).get("oracle")
+        hits = [p for p in r.problems if want is None or p["oracle"] == want]
+        for ev, ob in zip(case["events"], r.obs):
+            print("  ", ev, "->", ob)
+        if hits:
+            print("replay: STILL FAILS", json.dumps(hits[0], default=repr))
+            return 1
+        print("replay: passes now")
+        return 0
+    print("replay: payload kind not replayable directly (stress or broken obligation); re-run ./bin/check C19 thorough")
+    return 2
